@@ -230,6 +230,149 @@ def match_names(cur_params, cur_locals, base):
   return dict((k, v) for k, v in mapping.items() if k != v)
 
 
+def _is_pure(e):
+  """Cheap, side-effect free expression that may be duplicated: names, attributes,
+  constants, arithmetic/comparisons on those and len() of those."""
+  for n in ast.walk(e):
+    if isinstance(n, ast.Call):
+      if not (isinstance(n.func, ast.Name) and n.func.id in ('len', 'int', 'float', 'str', 'bool') and len(n.args) == 1 and not n.keywords):
+        return False
+    elif isinstance(n, (ast.Lambda, ast.ListComp, ast.SetComp, ast.DictComp, ast.GeneratorExp, ast.Await, ast.Yield, ast.YieldFrom, ast.NamedExpr, ast.Subscript)):
+      return False
+  return True
+
+
+def _blocks(fnode):
+  """All statement lists of a function (not descending into nested defs)."""
+  out = []
+
+  def walk(stmts):
+    out.append(stmts)
+    for st in stmts:
+      if isinstance(st, (ast.FunctionDef, ast.AsyncFunctionDef, ast.ClassDef)):
+        continue
+      for fld in ('body', 'orelse', 'finalbody'):
+        sub = getattr(st, fld, None)
+        if isinstance(sub, list) and sub and isinstance(sub[0], ast.stmt):
+          walk(sub)
+      for h in getattr(st, 'handlers', []) or []:
+        walk(h.body)
+  walk(fnode.body)
+  return out
+
+
+def _loads(node, name, into_nested=True):
+  out = []
+  stack = [node]
+  while stack:
+    n = stack.pop()
+    if isinstance(n, ast.Name) and n.id == name and isinstance(n.ctx, ast.Load):
+      out.append(n)
+    for ch in ast.iter_child_nodes(n):
+      if not into_nested and isinstance(ch, (ast.FunctionDef, ast.AsyncFunctionDef, ast.Lambda, ast.ClassDef)) and ch is not node:
+        continue
+      stack.append(ch)
+  return out
+
+
+def inline_new_temporaries(fnode, base_names, stats):
+  """Forward-substitute locals that the reference tree does not know (temporaries
+  introduced by splitting an expression) into their uses."""
+  for _round in range(8):
+    changed = False
+    params, locs = local_defs_fp(fnode)
+    for nm, fps in locs:
+      if nm in base_names or nm in params or nm.startswith('__ret_') or nm.startswith('__done_'):
+        continue
+      if len(fps) != 1 or not fps[0].startswith('=|') or not fps[0].endswith('|'):
+        continue
+      # the single defining statement and its block
+      S = blk = None
+      for b in _blocks(fnode):
+        for st in b:
+          if isinstance(st, ast.Assign) and len(st.targets) == 1 and isinstance(st.targets[0], ast.Name) and st.targets[0].id == nm:
+            S, blk = st, b
+      if S is None:
+        continue
+      all_uses = _loads(fnode, nm)
+      own_uses = _loads(fnode, nm, into_nested=False)
+      if not all_uses:
+        continue
+      if _is_pure(S.value):
+        for u in all_uses:
+          _replace_node(fnode, u, copy.deepcopy(S.value))
+        blk.remove(S)
+        if not blk:
+          blk.append(ast.Pass(lineno=S.lineno, col_offset=S.col_offset))
+        stats['temps'] = stats.get('temps', 0) + 1
+        changed = True
+        break
+      if len(all_uses) != 1 or len(own_uses) != 1:
+        continue
+      i = blk.index(S)
+      # the use must be in a following statement of the same block, with only inert statements between
+      tgt = None
+      for j in range(i + 1, len(blk)):
+        st = blk[j]
+        if any(u is all_uses[0] for u in ast.walk(st)):
+          tgt = j
+          break
+        inert = isinstance(st, ast.Assign) and all(isinstance(t, (ast.Name, ast.Tuple)) for t in st.targets) and (
+          _is_pure(st.value) or all(isinstance(t, ast.Name) and t.id not in base_names for t in st.targets))
+        if not inert:
+          break
+      if tgt is None:
+        continue
+      ust = blk[tgt]
+      # not inside a loop body / nested def of that statement (evaluated once, here)
+      if isinstance(ust, (ast.For, ast.While, ast.AsyncFor)) and not any(u is all_uses[0] for u in ast.walk(ust.iter if hasattr(ust, 'iter') else ust.test)):
+        continue
+      if isinstance(ust, (ast.FunctionDef, ast.AsyncFunctionDef, ast.ClassDef)):
+        continue
+      _replace_node(fnode, all_uses[0], S.value)
+      blk.remove(S)
+      stats['temps'] = stats.get('temps', 0) + 1
+      changed = True
+      break
+    if not changed:
+      break
+  # tuple temporaries used as consecutive call arguments: a, b, c = f(x); g(.., a, b, c) -> g(.., *f(x))
+  params, locs = local_defs_fp(fnode)
+  for b in _blocks(fnode):
+    for st in list(b):
+      if isinstance(st, ast.Assign) and len(st.targets) == 1 and isinstance(st.targets[0], ast.Tuple) and isinstance(st.value, ast.Call):
+        names = [e.id for e in st.targets[0].elts if isinstance(e, ast.Name)]
+        if len(names) != len(st.targets[0].elts) or any(n in base_names for n in names):
+          continue
+        uses = [(_loads(fnode, n)) for n in names]
+        if any(len(u) != 1 for u in uses):
+          continue
+        for c in ast.walk(fnode):
+          if isinstance(c, ast.Call):
+            ids = [a.id if isinstance(a, ast.Name) else None for a in c.args]
+            for k in range(len(ids) - len(names) + 1):
+              if ids[k:k + len(names)] == names and all(c.args[k + q] is uses[q][0] for q in range(len(names))):
+                c.args[k:k + len(names)] = [ast.Starred(value=st.value, ctx=ast.Load())]
+                b.remove(st)
+                stats['temps'] = stats.get('temps', 0) + 1
+                break
+  ast.fix_missing_locations(fnode)
+
+
+def _replace_node(root, old, new):
+  for parent in ast.walk(root):
+    for fld, val in ast.iter_fields(parent):
+      if val is old:
+        setattr(parent, fld, ast.copy_location(new, old))
+        return True
+      if isinstance(val, list):
+        for i, v in enumerate(val):
+          if v is old:
+            val[i] = ast.copy_location(new, old)
+            return True
+  return False
+
+
 def rename_function(fnode, rel, qualname, base_funcs, stats):
   base = base_funcs.get(rel + '::' + qualname)
   if base is None:
@@ -241,6 +384,11 @@ def rename_function(fnode, rel, qualname, base_funcs, stats):
     r = _Rename(mapping)
     fnode.args = r.visit(fnode.args)
     fnode.body = [r.visit(s) for s in fnode.body]
+  try:
+    base_names = set(base.get('params', [])) | set(b[0] for b in base.get('locals', []))
+    inline_new_temporaries(fnode, base_names, stats)
+  except Exception as e:
+    stats['temps_error'] = repr(e)
   # nested functions (by their, possibly renamed, names)
   for n in own_nodes(fnode):
     if isinstance(n, (ast.FunctionDef, ast.AsyncFunctionDef)):
